@@ -27,7 +27,10 @@ REQUIRED = [
 ]
 RULE = ('(a) datasets of all five convention classes (holes = cells without geometry; UGRID meshes from '
         'gen_mesh mix triangles..octagons, concave L / pentagon faces, mid-edge collinear nodes, both windings, '
-        'random start vertex); (b) targeted simple polygons with integer coordinates packed as disjoint faces of '
+        'random start vertex); CF 1-D grids also with STORED bounds that are not contiguous — footprints leaving gaps '
+        'between neighbouring cells or overlapping them, so the cells share no corners and the grid is no lattice — in '
+        'both axis directions, stored as f8 / f4 / i4, in memory / read back from a file / dask-backed (10 per quick run, '
+        '60 thorough, every other one with a call history); (b) targeted simple polygons with integer coordinates packed as disjoint faces of '
         'UGRID meshes (80 per dataset, sizes and kinds mixed): strictly convex, convex with collinear vertices, '
         'star-shaped, 2-opt untangled random, hand-made concave templates (dart, L, T, U, stairs, spiral, comb ...) '
         'under unimodular maps, EVERY rotation of the start vertex and both windings of each template; among them '
@@ -377,6 +380,32 @@ def single_recipe(poly) -> dict:
                     for x, y in poly]], enc={'start_index': 0, 'fill': 'nan'})
 
 
+# kinds of stored CF 1-D bounds under which neighbouring cells do not share their corners
+NONCONTIG = ['gaps', 'overlap']
+
+
+def shrink_grid(recipe: dict, sig: str):
+    """A CF 1-D grid that fails clause `sig`: the sub-grid of its first two coordinate values per axis
+    (plainly stored if that is enough), when it fails the same clause.  -> (recipe, message) | None"""
+    if recipe.get('conv') != 'cf1d' or (len(recipe['lat']) <= 2 and len(recipe['lon']) <= 2 and not recipe.get('vary')):
+        return None
+    small = dict(recipe, lat=list(recipe['lat'][:2]), lon=list(recipe['lon'][:2]))
+    plain = {k: v for k, v in small.items() if k not in ('vary', 'lat_dtype', 'lon_dtype')}
+    for r1 in (plain, small):
+        try:
+            b1 = G.build(r1)
+            cells1 = truth_cells(b1)
+            if not truth_matches(G.bind(b1), cells1):
+                continue
+            res1, _ = call_impl(b1.ds)
+            again = [m for s, _, m in (oracle(cells1, res1) if res1 is not None else []) if s == sig]
+        except Exception:  # noqa: the smaller grid is only a candidate
+            continue
+        if again:
+            return r1, again[0]
+    return None
+
+
 def truth_cells(built) -> list:
     """Ground truth of `dataset.ems.polygons` as vertex lists: the generator's polygon, or
     None where the cell has no geometry — a hole of the grid, or a ring that is not a valid
@@ -466,6 +495,12 @@ def do_dataset(ctx, recipe: dict, items: list, label: str, labels: list | None =
             if again:
                 d = {'recipe': r1, 'op': 'tri'}
                 msg = again[0]
+        if d['recipe'] is recipe and shrunk < 12:
+            # a failure that belongs to the grid, not to one cell on its own: smallest sub-grid failing alike
+            small = shrink_grid(recipe, sig)
+            if small is not None:
+                ctx._c14_shrunk = getattr(ctx, '_c14_shrunk', 0) + 1
+                d, msg = {'recipe': small[0], 'op': 'tri'}, small[1]
         ctx.oracle_fail(sig, d, msg)
     # conclusions / hypotheses of the theorems on the real output, evaluated by the model
     V = exact_vertices(res[0])
@@ -580,6 +615,21 @@ def run(ctx) -> None:
         k = rng.randrange(len(p))
         p = p[:k + 1] + [p[k]] + p[k + 1:]
         one(T.pack([p], enc={'start_index': 0, 'fill': 'nan'}), items, 'repeated-vertex')
+
+    # (a'') CF 1-D grids whose STORED bounds are not contiguous: footprints that leave gaps between
+    # neighbouring cells, or that overlap them (both valid CF; every cell polygon is built from its own
+    # pair of bounds, so the cells no longer share their corners and the grid is not a lattice).
+    # Both axis directions, several storage types, held in memory / read back from a file / dask-backed;
+    # every other one is triangulated again after the caller edited its result in place.
+    # (Generated last so that the random stream of every case above stays what it was.)
+    for d in range(ctx.budget(10, 60)):
+        kind = NONCONTIG[d % len(NONCONTIG)]
+        recipe = G.random_recipe(rng, 'cf1d', ctx.tier, bounds=kind)
+        recipe['lat_dtype'] = rng.choice(['f8', 'f8', 'f4', 'i4'])
+        recipe['lon_dtype'] = rng.choice(['f8', 'f8', 'f4', 'i4'])
+        if rng.random() < 0.4:
+            recipe['vary'] = G.random_vary(rng, 'cf1d')
+        one(recipe, items, f'conv:cf1d:bounds-{kind}', history=random_history(rng, 2) if d % 2 else None)
 
     if ctx.searching and ctx.driver is None:
         ctx.evaluated(len(items))
